@@ -4,6 +4,8 @@ Model: Model/ValidatorStatus.lean. Source tie: Generated/Status.lean (CheckMissR
 statement by statement; Activate / MissReport guards) — `generated_*` theorems below.
 -/
 import BandVerif.Model.ValidatorStatus
+import BandVerif.Lemmas.FeedsSubmit
+import BandVerif.Model.FeedsSubmitSrc
 
 namespace C15
 open BandVerif BandVerif.VStatus
@@ -197,5 +199,37 @@ example : (activate ⟨false, false, 100⟩ 5 105).2 = ActErr.ok := by decide
 example : missReport ⟨true, false, 100⟩ 101 200 ≠ ⟨true, false, 100⟩ := by decide
 example : checkMiss 60 0 0 true 100 10 0 161 31 30 = true := by decide
 example : checkMiss 60 0 0 true 100 10 0 160 31 30 = false := by decide
+
+/-! ## the price-submission handler (what "the validator's latest price" is) -/
+
+/-- TIE TO SOURCE: the normalised text of feeds `SubmitSignalPrices`, `ValidateValidatorRequiredToSend` and
+    `NewValidatorPrice` regenerated from /repo on this run is the reviewed text `Model/FeedsSubmit.lean` was written from. -/
+theorem generated_submit_sources_match :
+    Generated.Status.src_SubmitSignalPrices = ExpectedSrc.FeedsSubmit.src_SubmitSignalPrices ∧
+    Generated.Status.src_ValidateValidatorRequiredToSend = ExpectedSrc.FeedsSubmit.src_ValidateValidatorRequiredToSend ∧
+    Generated.Status.src_NewValidatorPrice = ExpectedSrc.FeedsSubmit.src_NewValidatorPrice := ⟨rfl, rfl, rfl⟩
+
+/-- PROPERTY (the timestamp that miss detection and freshness read is the block's): every price of an accepted submission is
+    stored with the time and height of the block that carried it, for EVERY previous list, feed order and message -/
+theorem accepted_prices_are_stamped_with_block_time (feeds : List String) (prev : List FeedsSubmit.VP) (msg : List (String × Nat × Nat))
+    (msgTs blockTime height cooldown disc : Int) (required : Bool) (out : List FeedsSubmit.VP)
+    (h : FeedsSubmit.submit feeds prev msg msgTs blockTime height cooldown disc required = .ok out) :
+    out.length = feeds.length ∧
+    ∀ m ∈ msg, ∃ (i : Nat) (v : FeedsSubmit.VP), FeedsSubmit.idxOf feeds m.1 = some i ∧ out[i]? = some v ∧ v.sid = m.1 ∧ v.ts = blockTime ∧ v.bh = height :=
+  FeedsSubmit.accepted_prices_are_stamped feeds prev msg msgTs blockTime height cooldown disc required out h
+
+/-- PROPERTY (a kept price stays with its signal when the feed list is re-ranked) -/
+theorem stored_prices_follow_their_signal (feeds : List String) (prev : List FeedsSubmit.VP) (msg : List (String × Nat × Nat))
+    (msgTs blockTime height cooldown disc : Int) (required : Bool) (out : List FeedsSubmit.VP)
+    (h : FeedsSubmit.submit feeds prev msg msgTs blockTime height cooldown disc required = .ok out) (i : Nat) (v : FeedsSubmit.VP) (hv : out[i]? = some v) :
+    v = FeedsSubmit.VP.zero ∨ (v ∈ prev ∧ feeds[i]? = some v.sid) ∨ (FeedsSubmit.Stamped blockTime height msg v ∧ feeds[i]? = some v.sid) :=
+  FeedsSubmit.stored_entries_follow_their_signal feeds prev msg msgTs blockTime height cooldown disc required out h i v hv
+
+/-- PROPERTY (the sender's clock only gates admission; it is never stored) -/
+theorem sender_timestamp_is_not_stored (feeds : List String) (prev : List FeedsSubmit.VP) (msg : List (String × Nat × Nat))
+    (t1 t2 blockTime height cooldown disc : Int) (required : Bool)
+    (h1 : FeedsSubmit.absI (t1 - blockTime) ≤ disc) (h2 : FeedsSubmit.absI (t2 - blockTime) ≤ disc) :
+    FeedsSubmit.submit feeds prev msg t1 blockTime height cooldown disc required = FeedsSubmit.submit feeds prev msg t2 blockTime height cooldown disc required :=
+  FeedsSubmit.sender_timestamp_is_not_stored feeds prev msg t1 t2 blockTime height cooldown disc required h1 h2
 
 end C15
